@@ -28,6 +28,7 @@ import (
 	"math/rand"
 	"os"
 	"regexp"
+	"runtime"
 	"sort"
 	"strconv"
 	"strings"
@@ -96,6 +97,7 @@ type c17MI struct {
 }
 
 type c17Rule struct {
+	CI   bool    `json:"ci"`
 	Mode string  `json:"mode"`
 	Vals [][]int `json:"vals"`
 	Inv  bool    `json:"inv"`
@@ -143,24 +145,27 @@ type c17Event struct {
 }
 
 type c17Summary struct {
-	Leaf       int            `json:"leaf"`
-	DoIfOrder  int            `json:"doif_order_runs"` // executions of the family "do_if reads a field the plugin rewrites"
-	Stress     int            `json:"stress_runs"`     // executions of Do in the concurrent family
-	StressOut  int            `json:"stress_outcomes"` // distinct (config, event, outcome) records of them
-	StressMs   int            `json:"stress_ms_per_config"`
-	StressDrop int            `json:"stress_runs_not_recorded"` // executions beyond 40 distinct outcomes of one event (0 on correct code)
-	StressAlt  int            `json:"stress_alternations"`      // consecutive Do calls (any instance) with different do_if outcomes
-	Unique     int            `json:"unique_records"`
-	Files      []string       `json:"files"`
-	Events     int            `json:"events"`
-	Skipped    int            `json:"skipped_configs"`
-	SkipWhy    map[string]int `json:"skipped_why"`
-	Configs    int            `json:"configs"`
-	Panics     int            `json:"panics"`
-	Matched    int            `json:"matched"`
-	ByFam      map[string]int `json:"by_family"`
-	ExtraKept  int            `json:"extended_kept"`
-	ExtraAll   int            `json:"extended_total"`
+	Leaf              int            `json:"leaf"`
+	DoIfOrder         int            `json:"doif_order_runs"`        // executions of the family "do_if reads a field the plugin rewrites"
+	Stress            int            `json:"stress_runs"`            // executions of Do in the concurrent family
+	RuleStress        int            `json:"rule_stress_runs"`       // of them: masks with match_rules, every instance fed its own values
+	RuleStressOverlap int            `json:"rule_stress_overlapped"` // of them: Do started while another instance was inside Do
+	RuleStressMs      int            `json:"rule_stress_ms_per_config"`
+	StressOut         int            `json:"stress_outcomes"` // distinct (config, event, outcome) records of them
+	StressMs          int            `json:"stress_ms_per_config"`
+	StressDrop        int            `json:"stress_runs_not_recorded"` // executions beyond 40 distinct outcomes of one event (0 on correct code)
+	StressAlt         int            `json:"stress_alternations"`      // consecutive Do calls (any instance) with different do_if outcomes
+	Unique            int            `json:"unique_records"`
+	Files             []string       `json:"files"`
+	Events            int            `json:"events"`
+	Skipped           int            `json:"skipped_configs"`
+	SkipWhy           map[string]int `json:"skipped_why"`
+	Configs           int            `json:"configs"`
+	Panics            int            `json:"panics"`
+	Matched           int            `json:"matched"`
+	ByFam             map[string]int `json:"by_family"`
+	ExtraKept         int            `json:"extended_kept"`
+	ExtraAll          int            `json:"extended_total"`
 }
 
 // ---------------------------------------------------------------- helpers
@@ -675,7 +680,7 @@ func c17RuleDesc(rs matchrule.RuleSets) []c17RuleSet {
 			d.Cond = "or"
 		}
 		for _, r := range s.Rules {
-			rd := c17Rule{Inv: r.Invert, Vals: [][]int{}}
+			rd := c17Rule{Inv: r.Invert, CI: r.CaseInsensitive, Vals: [][]int{}}
 			switch r.Mode {
 			case matchrule.ModePrefix:
 				rd.Mode = "prefix"
@@ -699,7 +704,8 @@ func c17CopyRules(rs matchrule.RuleSets) matchrule.RuleSets {
 	for _, s := range rs {
 		c := matchrule.RuleSet{Name: s.Name, Cond: s.Cond}
 		for _, r := range s.Rules {
-			c.Rules = append(c.Rules, matchrule.Rule{Values: append([]string{}, r.Values...), Mode: r.Mode, Invert: r.Invert})
+			c.Rules = append(c.Rules, matchrule.Rule{Values: append([]string{}, r.Values...), Mode: r.Mode, Invert: r.Invert,
+				CaseInsensitive: r.CaseInsensitive})
 		}
 		out = append(out, c)
 	}
@@ -1185,7 +1191,68 @@ func c17RunStress(w *c17Writer, sum *c17Summary, rng *rand.Rand, thorough bool, 
 		`{"lvl":"tt","m":"aab","b":{"lvl":"x","c":"ab","d":["abé"]}}`,
 	}
 
+	cfgDocs := make([][]string, len(configs))
+	cfgOwn := make([]bool, len(configs))
+	for i := range configs {
+		cfgDocs[i] = docs
+	}
+
+	// ---- match rules shared by the instances (the RuleSet objects of a mask are the SAME objects for every
+	// instance: mask.Start copies the Masks slice only).  Every instance is fed its OWN values (some satisfy the
+	// rules, some do not, different lengths, key word in different cases and places), half of the time with
+	// GOMAXPROCS(1).  The decision of a rule is a function of (rule, value) alone (MaskRules.tla).
+	ruleDur := 500 * time.Millisecond
+	if thorough {
+		ruleDur = 3000 * time.Millisecond
+	}
+	if s := os.Getenv("VERIF_C17_RULE_STRESS_MS"); s != "" {
+		ms, _ := strconv.Atoi(s)
+		ruleDur = time.Duration(ms) * time.Millisecond
+	}
+	sum.RuleStressMs = int(ruleDur / time.Millisecond)
+	R := func(mode matchrule.Mode, ci, inv bool, vals ...string) matchrule.Rule {
+		return matchrule.Rule{Values: vals, Mode: mode, CaseInsensitive: ci, Invert: inv}
+	}
+	ruleSets := []matchrule.RuleSets{
+		{{Cond: matchrule.CondAnd, Rules: []matchrule.Rule{R(matchrule.ModeContains, true, false, "abBA:")}}},
+		{{Cond: matchrule.CondAnd, Rules: []matchrule.Rule{R(matchrule.ModeContains, true, false, "ABBA:", "nope"),
+			R(matchrule.ModePrefix, true, true, "CD")}}},
+		{{Cond: matchrule.CondOr, Rules: []matchrule.Rule{R(matchrule.ModeSuffix, true, false, "BBBB"),
+			R(matchrule.ModeContains, false, false, "ABba:")}}},
+		{{Cond: matchrule.CondAnd, Rules: []matchrule.Rule{R(matchrule.ModePrefix, false, false, "ABba:")}},
+			{Cond: matchrule.CondAnd, Rules: []matchrule.Rule{R(matchrule.ModeContains, true, false, "abba:"),
+				R(matchrule.ModeSuffix, false, true, "a")}}},
+	}
+	pad := func(n int) string { return strings.Repeat("ab é", n) }
+	var ruleDocs []string
+	for j := 0; j < 3*instances; j++ {
+		kw := []string{"ABba:", "cdcd:", "abba:", "cDcd:", "aBBA:", "abab:"}[j%6]
+		n := []int{40, 64, 52, 30, 70, 46, 58}[j%7]
+		var v1, v2 string
+		switch j % 3 {
+		case 0: // key word first
+			v1 = kw + " bbbbb " + pad(n)
+			v2 = pad(n/2) + "a"
+		case 1: // key word last
+			v1 = pad(n) + " bbbb " + kw
+			v2 = kw + "bbbb"
+		default: // key word in the middle, secret at the end
+			v1 = pad(n/2) + kw + pad(n/2) + "bbbb"
+			v2 = "bbb " + pad(n/3) + kw
+		}
+		ruleDocs = append(ruleDocs, `{"k":"`+v1+`","o":{"v":"`+v2+`","n":`+strconv.Itoa(j)+`}}`)
+	}
+	for _, rs := range ruleSets {
+		m := mk(`(bbb+)`, []int{1}, mAst, nil)
+		m.MatchRules = c17CopyRules(rs)
+		configs = append(configs, []c17StressMask{{mask: m, cond: []c17Cond{}}})
+		cfgDocs = append(cfgDocs, ruleDocs)
+		cfgOwn = append(cfgOwn, true)
+	}
+
 	for ci, sm := range configs {
+		docs := cfgDocs[ci]
+		own := cfgOwn[ci]
 		if replay != nil {
 			any := false
 			for di := range docs {
@@ -1245,81 +1312,110 @@ func c17RunStress(w *c17Writer, sum *c17Summary, rng *rand.Rand, thorough bool, 
 
 		// the concurrent phase
 		outs := make([]map[string]*c17Outcome, instances) // per goroutine: "di|outcome" -> record
-		var wg sync.WaitGroup
-		var lastDoc atomic.Int64
-		var alternations, dropped atomic.Int64
-		const maxOutcomes = 40 // per goroutine and event
-		lastDoc.Store(-1)
-		deadline := time.Now().Add(dur)
-		nm := len(p0.config.Masks)
-		for g := 0; g < instances; g++ {
+		for g := range outs {
 			outs[g] = map[string]*c17Outcome{}
-			wg.Add(1)
-			lseed := rng.Int63()
-			go func(g int, pl *Plugin, out map[string]*c17Outcome) {
-				defer wg.Done()
-				r := insaneJSON.Spawn()
-				defer insaneJSON.Release(r)
-				lrng := rand.New(rand.NewSource(lseed))
-				mm0 := make([]int, nm)
-				perDoc := make([]int, len(docs))
-				for n := 0; ; n++ {
-					if n%64 == 0 && time.Now().After(deadline) {
-						return
-					}
-					di := (n + g) % len(docs)
-					if n%7 == 0 {
-						di = lrng.Intn(len(docs))
-					}
-					if err := r.DecodeString(docs[di]); err != nil {
-						panic(err)
-					}
-					m0 := c17Met(pl)
-					for i := range mm0 {
-						mm0[i] = c17MaskMet(pl, i)
-					}
-					if prev := lastDoc.Swap(int64(di)); prev >= 0 && prev != int64(di) {
-						alternations.Add(1)
-					}
-					pmsg, panicked := c17Do(pl, &pipeline.Event{Root: r})
-					var key string
-					oc := &c17Outcome{res: "ok", mmet: make([]int, nm)}
-					if panicked {
-						oc.res, oc.pmsg = "panic", pmsg
-						key = fmt.Sprintf("%d|panic|%s", di, pmsg)
-					} else {
-						oc.met = c17Met(pl) - m0
-						for i := range mm0 {
-							oc.mmet[i] = c17MaskMet(pl, i) - mm0[i]
-						}
-						key = fmt.Sprintf("%d|%s|%d|%v", di, r.EncodeToString(), oc.met, oc.mmet)
-					}
-					if e, ok := out[key]; ok {
-						e.n++
-					} else if perDoc[di] >= maxOutcomes {
-						// correct code has ONE outcome per event; a flood of different wrong outcomes (e.g. shared metric
-						// counters) is cut here -- the ones already kept fail the specification anyway
-						dropped.Add(1)
-					} else {
-						perDoc[di]++
-						oc.n = 1
-						if !panicked {
-							oc.after = c17Flatten(r.Node, []string{}, nil)
-							for li := range oc.after {
-								oc.after[li].MI = []c17MI{}
-							}
-						}
-						out[key] = oc
-					}
-					if panicked {
-						return // the instance may be inconsistent; restarting it would race with the others
-					}
-				}
-			}(g, plugins[g], outs[g])
 		}
-		wg.Wait()
+		type phase struct {
+			procs int // 0 = leave GOMAXPROCS alone
+			dur   time.Duration
+		}
+		phases := []phase{{0, dur}}
+		if own {
+			phases = []phase{{0, ruleDur * 6 / 10}, {1, ruleDur * 4 / 10}}
+		}
+		var alternations, dropped, inflight, overlapped atomic.Int64
+		const maxOutcomes = 40 // per goroutine and event
+		nm := len(p0.config.Masks)
+		for _, ph := range phases {
+			prevProcs := 0
+			if ph.procs > 0 {
+				prevProcs = runtime.GOMAXPROCS(ph.procs)
+			}
+			var wg sync.WaitGroup
+			var lastDoc atomic.Int64
+			lastDoc.Store(-1)
+			deadline := time.Now().Add(ph.dur)
+			for g := 0; g < instances; g++ {
+				wg.Add(1)
+				lseed := rng.Int63()
+				go func(g int, pl *Plugin, out map[string]*c17Outcome) {
+					defer wg.Done()
+					r := insaneJSON.Spawn()
+					defer insaneJSON.Release(r)
+					lrng := rand.New(rand.NewSource(lseed))
+					mm0 := make([]int, nm)
+					perDoc := make([]int, len(docs))
+					for n := 0; ; n++ {
+						if n%64 == 0 && time.Now().After(deadline) {
+							return
+						}
+						di := (n + g) % len(docs)
+						if n%7 == 0 {
+							di = lrng.Intn(len(docs))
+						}
+						if own { // this instance's own values only
+							di = g + instances*(di/instances)
+						}
+						if err := r.DecodeString(docs[di]); err != nil {
+							panic(err)
+						}
+						m0 := c17Met(pl)
+						for i := range mm0 {
+							mm0[i] = c17MaskMet(pl, i)
+						}
+						if prev := lastDoc.Swap(int64(di)); prev >= 0 && prev != int64(di) {
+							alternations.Add(1)
+						}
+						if inflight.Add(1) > 1 {
+							overlapped.Add(1) // another instance is inside Do right now
+						}
+						pmsg, panicked := c17Do(pl, &pipeline.Event{Root: r})
+						inflight.Add(-1)
+						var key string
+						oc := &c17Outcome{res: "ok", mmet: make([]int, nm)}
+						if panicked {
+							oc.res, oc.pmsg = "panic", pmsg
+							key = fmt.Sprintf("%d|panic|%s", di, pmsg)
+						} else {
+							oc.met = c17Met(pl) - m0
+							for i := range mm0 {
+								oc.mmet[i] = c17MaskMet(pl, i) - mm0[i]
+							}
+							key = fmt.Sprintf("%d|%s|%d|%v", di, r.EncodeToString(), oc.met, oc.mmet)
+						}
+						if e, ok := out[key]; ok {
+							e.n++
+						} else if perDoc[di] >= maxOutcomes {
+							// correct code has ONE outcome per event; a flood of different wrong outcomes (e.g. shared metric
+							// counters) is cut here -- the ones already kept fail the specification anyway
+							dropped.Add(1)
+						} else {
+							perDoc[di]++
+							oc.n = 1
+							if !panicked {
+								oc.after = c17Flatten(r.Node, []string{}, nil)
+								for li := range oc.after {
+									oc.after[li].MI = []c17MI{}
+								}
+							}
+							out[key] = oc
+						}
+						if panicked {
+							return // the instance may be inconsistent; restarting it would race with the others
+						}
+					}
+				}(g, plugins[g], outs[g])
+			}
+			wg.Wait()
+			if ph.procs > 0 {
+				runtime.GOMAXPROCS(prevProcs)
+			}
+		}
 		sum.StressAlt += int(alternations.Load())
 		sum.StressDrop += int(dropped.Load())
+		if own {
+			sum.RuleStressOverlap += int(overlapped.Load())
+		}
 
 		// one record per distinct (event, outcome)
 		merged := map[string]*c17Outcome{}
@@ -1350,6 +1446,9 @@ func c17RunStress(w *c17Writer, sum *c17Summary, rng *rand.Rand, thorough bool, 
 			}
 			sum.Stress += oc.n
 			sum.StressOut++
+			if own {
+				sum.RuleStress += oc.n
+			}
 			w.put(&rec, info)
 		}
 	}
